@@ -389,7 +389,41 @@ theorem plain_argmin_eq (sqrt : Rat → Rat) (xs : List Rat) :
         simp [argminStepP, h, this]) xs ⟨none, none, 0⟩]
 
 theorem plain_functions_present :
-    GenAgg.plain.functions = ["count_value", "first", "last", "n_sum", "sum", "mean", "max", "min", "argmax", "argmin"] := rfl
+    ∀ n ∈ ["count_value", "first", "last", "n_sum", "sum", "mean", "max", "min", "argmax", "argmin", "any", "all"],
+      n ∈ GenAgg.plain.functions := by
+  simp [GenAgg.plain.functions]
+
+/-! ## boolean elements: `vany`, `vall` (`AggValidBasic`), `any`, `all` (`AggBasic`), regenerated -/
+
+theorem vfoldB_eq {σ : Type} (f : σ → Bool → σ) (init : σ) (xs : List (Option Bool)) :
+    Gen.vfoldB f init xs = C11.vfold f init xs := by
+  unfold Gen.vfoldB C11.vfold
+  congr 1
+  funext acc v
+  cases v <;> rfl
+
+theorem vany_eq (sqrt : Rat → Rat) (xs : List (Option Bool)) : GenAgg.vany.run sqrt xs = C11.vany xs := by
+  simp only [GenAgg.vany.run, C11.vany, vfoldB_eq]
+
+theorem vall_eq (sqrt : Rat → Rat) (xs : List (Option Bool)) : GenAgg.vall.run sqrt xs = C11.vall xs := by
+  simp only [GenAgg.vall.run, C11.vall, vfoldB_eq]
+
+/-- the regenerated `vany` is "some non-null element is true" -/
+theorem vany_spec (sqrt : Rat → Rat) (xs : List (Option Bool)) : GenAgg.vany.run sqrt xs = C11.Spec.anyValid xs := by
+  rw [vany_eq, C11.vany_exact]
+
+/-- the regenerated `vall` is "no non-null element is false" -/
+theorem vall_spec (sqrt : Rat → Rat) (xs : List (Option Bool)) : GenAgg.vall.run sqrt xs = C11.Spec.allValid xs := by
+  rw [vall_eq, C11.vall_exact]
+
+theorem plain_any_eq (sqrt : Rat → Rat) (xs : List Bool) : GenAgg.plain.any.run sqrt xs = C11.anyP xs := by
+  simp only [GenAgg.plain.any.run, C11.anyP]; rfl
+
+theorem plain_all_eq (sqrt : Rat → Rat) (xs : List Bool) : GenAgg.plain.all.run sqrt xs = C11.allP xs := by
+  simp only [GenAgg.plain.all.run, C11.allP]; rfl
+
+theorem bool_functions_present : ∀ n ∈ ["vany", "vall"], n ∈ GenAgg.functions := by
+  simp [GenAgg.functions]
 /-! ## the masked aggregations of tea-agg (`n_vsum_filter`, `n_sum_filter`, `vmean_filter`), regenerated -/
 
 theorem filterMap_keepFlag (F : Option Rat × Option Bool → Option (Option Rat)) (hF : ∀ v f, F (v, f) = keepFlag (v, f))
